@@ -80,6 +80,17 @@ def check_reach(game, rp, rs, tag, fail, cr, vs, conv, acyc):
             exp = [a for (a, t), v in zip(tl[s], vals) if v == m]
         if rs[s] != exp:
             fail({'C04'}, 'reach-strategy', tag + f'state {s}: reported {rs[s]!r}, arg-opt of the rounded reported values is {exp!r}')
+        if conv and players[s] != PR:
+            tv = [vs[t] for _, t in tl[s]]
+            tg = [t for _, t in tl[s]]
+            # ties between DIFFERENT successors are compared only in acyclic games (exact there); in cyclic games the
+            # stopping rule breaks such ties (known finding F-ACC), so only clearly separated values are compared
+            sep = all(tg[i] == tg[j] or abs(tv[i] - tv[j]) > 1e-2 or (acyc and abs(tv[i] - tv[j]) <= 1e-9) for i in range(len(tv)) for j in range(len(tv)))
+            if sep:
+                m = max(tv) if players[s] == P1 else min(tv)
+                exp2 = [a for (a, t), v in zip(tl[s], tv) if abs(v - m) <= 1e-9]
+                if rs[s] != exp2:
+                    fail({'C04'}, 'true-optimal-actions', tag + f'state {s}: reported {rs[s]!r}; the actions optimal for the TRUE successor values {tv!r} are {exp2!r}')
 
 
 def check_reach_only(game, mods):
